@@ -12,12 +12,15 @@ package decoder
 // length / count field below is attacker-controlled in a broker-written segment.
 
 import (
+	"bytes"
+	"compress/gzip"
 	"encoding/binary"
 	"fmt"
 	"os"
 	"runtime"
 	"strconv"
 	"strings"
+	"sync"
 
 	"pgregory.net/rapid"
 	"verif.local/vfkit"
@@ -353,4 +356,269 @@ func c34ReadCorpus(path string) ([][]byte, error) {
 		out = append(out, []byte(s))
 	}
 	return out, nil
+}
+
+// ---- compressed batches ------------------------------------------------------------------
+//
+// Kafka compresses the records section of a batch as a whole (attributes bits 0-2: 1 gzip,
+// 2 snappy, 3 lz4 frame, 4 zstd) and the broker stores it unchanged, so the inflated size is
+// entirely client-chosen. The streams below are valid for their codec and hand-made (no
+// third-party encoder needed): "ordinary" ones carry real records, "bombs" inflate to
+// megabytes of zeros from a few hundred bytes .. a few KiB.
+
+func c34Gzip(plain []byte) []byte {
+	var b bytes.Buffer
+	zw, _ := gzip.NewWriterLevel(&b, gzip.BestCompression)
+	_, _ = zw.Write(plain)
+	_ = zw.Close()
+	return b.Bytes()
+}
+
+var (
+	c34BombMu    sync.Mutex
+	c34BombCache = map[string][]byte{}
+)
+
+// c34Bomb returns a valid stream of the codec that inflates to about mib MiB of zeros.
+func c34Bomb(codec string, mib int) []byte {
+	key := fmt.Sprintf("%s/%d", codec, mib)
+	c34BombMu.Lock()
+	defer c34BombMu.Unlock()
+	if b, ok := c34BombCache[key]; ok {
+		return b
+	}
+	n := mib << 20
+	var out []byte
+	switch codec {
+	case "gzip":
+		out = c34Gzip(make([]byte, n))
+	case "zstd":
+		out = c34ZstdRLE(n)
+	case "lz4":
+		out = c34Lz4Zeros(n)
+	case "snappy", "snappy-xerial":
+		out = c34SnappyZeros(1 << 20) // snappy cannot exceed ~21:1, a bigger stream only costs time
+		if codec == "snappy-xerial" {
+			out = c34Xerial(out)
+		}
+	}
+	c34BombCache[key] = out
+	return out
+}
+
+// zstd: magic, frame header descriptor 0 (no content size, no checksum), window descriptor
+// 0x38 (128 KiB), then blocks with a 3-byte header (bit0 last, bits1-2 type: 0 raw 1 RLE).
+func c34ZstdHeader() []byte { return []byte{0x28, 0xB5, 0x2F, 0xFD, 0x00, 0x38} }
+
+func c34ZstdBlockHeader(last bool, typ, size int) []byte {
+	v := uint32(size)<<3 | uint32(typ)<<1
+	if last {
+		v |= 1
+	}
+	return []byte{byte(v), byte(v >> 8), byte(v >> 16)}
+}
+
+func c34ZstdRLE(n int) []byte {
+	out := c34ZstdHeader()
+	for n > 0 {
+		sz := min(n, 128<<10)
+		n -= sz
+		out = append(out, c34ZstdBlockHeader(n == 0, 1, sz)...)
+		out = append(out, 0x00)
+	}
+	return out
+}
+
+func c34ZstdRaw(plain []byte) []byte {
+	out := c34ZstdHeader()
+	if len(plain) == 0 {
+		return append(out, c34ZstdBlockHeader(true, 0, 0)...)
+	}
+	for len(plain) > 0 {
+		sz := min(len(plain), 100<<10)
+		out = append(out, c34ZstdBlockHeader(sz == len(plain), 0, sz)...)
+		out = append(out, plain[:sz]...)
+		plain = plain[sz:]
+	}
+	return out
+}
+
+// snappy raw block: uvarint(uncompressed length), then literal / copy elements.
+func c34SnappyLiteral(plain []byte) []byte {
+	out := binary.AppendUvarint(nil, uint64(len(plain)))
+	for len(plain) > 0 {
+		sz := min(len(plain), 60)
+		out = append(out, byte(sz-1)<<2)
+		out = append(out, plain[:sz]...)
+		plain = plain[sz:]
+	}
+	return out
+}
+
+func c34SnappyZeros(n int) []byte {
+	out := binary.AppendUvarint(nil, uint64(n))
+	out = append(out, 0x00, 0x00) // literal of one zero byte
+	n--
+	for n > 0 {
+		sz := min(n, 64)
+		out = append(out, byte(sz-1)<<2|2, 0x01, 0x00) // copy sz bytes from offset 1
+		n -= sz
+	}
+	return out
+}
+
+// c34Xerial wraps a raw snappy block in the xerial stream framing used by the Java client.
+func c34Xerial(block []byte) []byte {
+	out := []byte{0x82, 'S', 'N', 'A', 'P', 'P', 'Y', 0x00, 0, 0, 0, 1, 0, 0, 0, 1}
+	out = binary.BigEndian.AppendUint32(out, uint32(len(block)))
+	return append(out, block...)
+}
+
+// xxh32 (seed 0), needed for the lz4 frame header checksum byte.
+func c34XXH32(b []byte) uint32 {
+	var p1, p2, p3, p4, p5 uint32 = 2654435761, 2246822519, 3266489917, 668265263, 374761393
+	rotl := func(x uint32, r uint) uint32 { return x<<r | x>>(32-r) }
+	n := len(b)
+	var h uint32
+	if n >= 16 {
+		v1, v2, v3, v4 := p1+p2, p2, uint32(0), -p1
+		for len(b) >= 16 {
+			v1 = rotl(v1+binary.LittleEndian.Uint32(b[0:])*p2, 13) * p1
+			v2 = rotl(v2+binary.LittleEndian.Uint32(b[4:])*p2, 13) * p1
+			v3 = rotl(v3+binary.LittleEndian.Uint32(b[8:])*p2, 13) * p1
+			v4 = rotl(v4+binary.LittleEndian.Uint32(b[12:])*p2, 13) * p1
+			b = b[16:]
+		}
+		h = rotl(v1, 1) + rotl(v2, 7) + rotl(v3, 12) + rotl(v4, 18)
+	} else {
+		h = p5
+	}
+	h += uint32(n)
+	for len(b) >= 4 {
+		h = rotl(h+binary.LittleEndian.Uint32(b)*p3, 17) * p4
+		b = b[4:]
+	}
+	for _, c := range b {
+		h = rotl(h+uint32(c)*p5, 11) * p1
+	}
+	h ^= h >> 15
+	h *= p2
+	h ^= h >> 13
+	h *= p3
+	h ^= h >> 16
+	return h
+}
+
+// lz4 frame: magic, FLG 0x60 (version 1, independent blocks), BD 0x70 (4 MiB blocks), header
+// checksum, blocks (uint32 LE size, high bit = stored), end mark.
+func c34Lz4Header() []byte {
+	desc := []byte{0x60, 0x70}
+	return append([]byte{0x04, 0x22, 0x4D, 0x18}, desc[0], desc[1], byte(c34XXH32(desc)>>8))
+}
+
+func c34Lz4Stored(plain []byte) []byte {
+	out := c34Lz4Header()
+	for len(plain) > 0 {
+		sz := min(len(plain), 1<<20)
+		out = binary.LittleEndian.AppendUint32(out, uint32(sz)|0x80000000)
+		out = append(out, plain[:sz]...)
+		plain = plain[sz:]
+	}
+	return append(out, 0, 0, 0, 0)
+}
+
+func c34Lz4Zeros(n int) []byte {
+	out := c34Lz4Header()
+	for n > 0 {
+		sz := min(n, 4<<20)
+		n -= sz
+		// one sequence: 1 literal, match (offset 1) of sz-6 bytes; then 5 trailing literals
+		match := sz - 6
+		blk := []byte{0x1F, 0x00, 0x01, 0x00}
+		rest := match - 4 - 15
+		for rest >= 255 {
+			blk = append(blk, 0xFF)
+			rest -= 255
+		}
+		blk = append(blk, byte(rest))
+		blk = append(blk, 0x50, 0, 0, 0, 0, 0)
+		out = binary.LittleEndian.AppendUint32(out, uint32(len(blk)))
+		out = append(out, blk...)
+	}
+	return append(out, 0, 0, 0, 0)
+}
+
+var c34Codecs = []string{"gzip", "snappy", "snappy-xerial", "lz4", "zstd"}
+
+func c34CodecBits(codec string) int16 {
+	switch codec {
+	case "gzip":
+		return 1
+	case "snappy", "snappy-xerial":
+		return 2
+	case "lz4":
+		return 3
+	default:
+		return 4
+	}
+}
+
+func c34Compress(codec string, plain []byte) []byte {
+	switch codec {
+	case "gzip":
+		return c34Gzip(plain)
+	case "snappy":
+		return c34SnappyLiteral(plain)
+	case "snappy-xerial":
+		return c34Xerial(c34SnappyLiteral(plain))
+	case "lz4":
+		return c34Lz4Stored(plain)
+	default:
+		return c34ZstdRaw(plain)
+	}
+}
+
+// c34CompressedBatches draws 1-2 client batches of which one is compressed: an ordinary
+// compressed batch of real records, a high-ratio one (4 or 16 MiB of zeros), a damaged
+// stream, or a stream of another codec than the attributes announce.
+func c34CompressedBatches(t *rapid.T, d *c34Desc) [][]byte {
+	codec := rapid.SampledFrom(c34Codecs).Draw(t, "codec")
+	kind := rapid.SampledFrom([]string{"ordinary", "bomb", "bomb", "damaged", "codec-mismatch", "bomb-damaged-tail"}).Draw(t, "compressed-kind")
+	n := rapid.IntRange(1, 4).Draw(t, "nrec")
+	var plain []byte
+	for i := 0; i < n; i++ {
+		var dd c34Desc
+		plain = append(plain, c34Record(t, "", &dd)...)
+	}
+	var stream []byte
+	switch kind {
+	case "ordinary":
+		stream = c34Compress(codec, plain)
+	case "bomb":
+		stream = c34Bomb(codec, rapid.SampledFrom([]int{4, 16}).Draw(t, "bomb-mib"))
+	case "bomb-damaged-tail":
+		b := c34Bomb(codec, 4)
+		stream = append([]byte(nil), b[:len(b)-rapid.IntRange(1, min(8, len(b)-1)).Draw(t, "cut-tail")]...)
+	case "damaged":
+		var dd c34Desc
+		stream = c34Flip(t, c34Compress(codec, plain), &dd)
+	default:
+		other := rapid.SampledFrom(c34Codecs).Draw(t, "actual-codec")
+		stream = c34Compress(other, plain)
+	}
+	b := &vfkit.Batch{Magic: 2, Attributes: c34CodecBits(codec), LastOffsetDelta: int32(n - 1), FirstTimestamp: 1726000000000, MaxTimestamp: 1726000005000,
+		ProducerID: -1, ProducerEpoch: -1, BaseSequence: -1, NumRecords: int32(n), RawRecords: stream}
+	d.Field, d.ValClass, d.Value, d.Batches = "compressed-"+codec, kind, int64(len(stream)), 1
+	out := [][]byte{b.Encode()}
+	if rapid.Bool().Draw(t, "plain-batch-too") {
+		var dd c34Desc
+		pb := c34Batches(t, false, &dd)
+		if rapid.Bool().Draw(t, "plain-first") {
+			out = append(pb, out...)
+		} else {
+			out = append(out, pb...)
+		}
+		d.Batches = len(out)
+	}
+	return out
 }
